@@ -354,6 +354,8 @@ static void case_c11(rng_t *r, ctx_t *c) {
         }
         if (n > maxn) n = rng_range(r, maxn / 2, maxn);
         if (n < 0) n = 0;
+        /* the smallest decimation uses up the 15 index levels after 2^15 entries: counts around that capacity and twice it */
+        if (adf == 2 && rng_chance(r, 1, c->thorough ? 4 : 12)) n = (rng_chance(r, 1, 2) ? 32768 : 65536) + rng_range(r, -4, 200);
         /* timestamps: non-decreasing, equal runs placed across index-chunk boundaries */
         int64_t ts = base + rng_range(r, -50, 50);
         if (sid == 0) ts = rng_chance(r, 1, 2) ? JLS_TIME_SECOND * rng_range(r, -10, 1000) : rng_range(r, -1000, 1000);
@@ -445,6 +447,10 @@ static void case_c12(rng_t *r, ctx_t *c) {
     long double ticks_per_sample = (long double) JLS_TIME_SECOND / d.sample_rate;
     int64_t sid = first + rng_range(r, 0, 20);
     int64_t utc = JLS_TIME_SECOND * rng_range(r, 1000, 100000000);
+    /* where the UTC values lie relative to the sample ids: far above (ordinary), before the epoch, or small */
+    int utccls = (int) rng_below(r, 4);
+    if (utccls == 1) utc = -JLS_TIME_SECOND * rng_range(r, 1000, 100000000);
+    else if (utccls == 2) utc = rng_range(r, -1000, 1000);
     int drift_ppm = (int) rng_range(r, -500, 500);
     int irregular = rng_chance(r, 1, 2);
     int equal_times = rng_chance(r, 1, 5);
@@ -467,6 +473,7 @@ static void case_c12(rng_t *r, ctx_t *c) {
     sample_prog("C12", &p);
     v_feature("C12", 1, "n=%d|udf=%u|rate=%u|first=%s|data=%d|irregular=%d|equal=%d|drift=%s", ncls, udf, d.sample_rate, FIRST_NAME[fcls], with_data, irregular, equal_times,
               drift_ppm < -100 ? "neg" : drift_ppm > 100 ? "pos" : "small");
+    v_feature("C12", n > 0, "utc-values=%s|first=%s|udf=%u", utccls == 1 ? "pre-epoch" : utccls == 2 ? "small" : "ordinary", FIRST_NAME[fcls], udf);
     decode_and_compare(path, &m, "C05", "sync", 0);
     verify_opts_t vo = {.prop_len = "C01", .prop_data = NULL, .check_utc = 1, .rng = r, .file_kind = "sync"};
     verify_file(path, &m, &vo);
@@ -1162,7 +1169,7 @@ int main(int argc, char **argv) {
     c.thorough = (int) v_arg_i(argc, argv, "--thorough", 0);
     c.budget = v_arg_i(argc, argv, "--budget", c.thorough ? (2 << 20) : (512 << 10));
     g_check = c.mode;
-    run_opts_t ro = {.cpu_s = (int) v_arg_i(argc, argv, "--cpu", 20), .wall_s = (int) v_arg_i(argc, argv, "--wall", 120), .no_fork = v_has_arg(argc, argv, "--no-fork"), .as_mb = 0};
+    run_opts_t ro = {.cpu_s = (int) v_arg_i(argc, argv, "--cpu", !strcmp(c.mode, "c02") ? 120 : 20),   /* c02: the long-double oracle is O(samples) per request */ .wall_s = (int) v_arg_i(argc, argv, "--wall", 120), .no_fork = v_has_arg(argc, argv, "--no-fork"), .as_mb = 0};
 #if !defined(__SANITIZE_ADDRESS__) && !defined(__SANITIZE_THREAD__)
     ro.as_mb = 6144;
 #endif
